@@ -106,7 +106,23 @@ def build(rec, save_iterations=False):
         dd = be - ex.Variable(f'c{p}')
         t = -A[p] * (ex.Variable('s') * (dd * dd))
         f = t if f is None else f + t
-    b = bio.BIOGEME(d, f, optimization_algorithm=rec['algo'], save_iterations=save_iterations, generate_html=False, generate_pickle=False)
+    # on half of the records a second formula is handed over side by side: it declares its OWN parameter objects with
+    # the same names ("after estimation the formulas' starting values equal the estimates": every formula)
+    import zlib
+
+    formulas = f
+    if zlib.crc32(repr((rec['algo'], rec['start'], rec['fixed'], rec['bounds'])).encode()) % 2 == 0:
+        g = None
+        for p, nm in enumerate(NAMES):
+            b_ = rec['bounds'][p]
+            lo = fq(b_['lo']['v']) if b_['lo']['set'] else None
+            hi = fq(b_['hi']['v']) if b_['hi']['set'] else None
+            be2 = ex.Beta(nm, fq(rec['start'][p]), lo, hi, 1 if rec['fixed'][p] else 0)
+            betas.append(be2)
+            t = be2 * ex.Variable(f'c{p}')
+            g = t if g is None else g + t
+        formulas = {'log_like': f, 'aux': g}
+    b = bio.BIOGEME(d, formulas, optimization_algorithm=rec['algo'], save_iterations=save_iterations, generate_html=False, generate_pickle=False)
     b.modelName = 'c07'
     return b, betas, d
 
@@ -235,7 +251,8 @@ def replay(rec):
                        im=bool(state['init_f'] is not None and float(data.initLogLike) == state['init_f'])))
     est = results.get_beta_values()
     wb = True
-    for p, be in enumerate(betas):
+    for p_, be in enumerate(betas):
+        p = p_ % len(NAMES)
         if rec['fixed'][p]:
             wb = wb and be.initValue == fq(rec['start'][p]) and NAMES[p] not in est
         else:
